@@ -41,7 +41,11 @@ class Symbolic(SymSymbol):  # type: ignore[misc]  # pylint: disable=too-many-anc
         inner = str(expr)
         display_name = f"{cls_name}({inner})"
 
-        obj = super().__new__(cls, display_name, **assumptions)
+        # NOTE: symbols are cached by name, but the display name does not identify the argument
+        # (distinct symbols can share a display name), so a new object is made on every call and
+        # the argument takes part in comparison and hashing
+        cls._sanitize(assumptions, cls)
+        obj = SymSymbol.__xnew__(cls, display_name, **assumptions)
         return obj  # type: ignore[no-any-return]
 
     def __init__(
@@ -55,6 +59,9 @@ class Symbolic(SymSymbol):  # type: ignore[misc]  # pylint: disable=too-many-anc
         self.dimension = collect_expression_and_dimension(expr)[1]
         self.wrap_code = wrap_code
         self.wrap_latex = wrap_latex
+
+    def _hashable_content(self) -> tuple[Any, ...]:
+        return (*super()._hashable_content(), self.factor)
 
 
 class Average(Symbolic):  # pylint: disable=too-many-ancestors
